@@ -275,6 +275,13 @@ Fixpoint wrun (s : wstate) (tr : list wlabel) : option (R wstate) :=
 Definition is_deliver (l : wlabel) : bool :=
   match l with Deliver _ => true | _ => false end.
 
+Definition is_exit (l : wlabel) : bool :=
+  match l with EnvExit _ => true | _ => false end.
+
+(* a wait was started and has neither produced nor failed yet *)
+Definition wait_pending (w : wait_st) : bool :=
+  match w with WPollArmed | WPollReady | WQueued | WInWaitpid => true | _ => false end.
+
 Definition is_env_fault (l : wlabel) : bool :=
   match l with EnvJobCancelled | EnvTakeFails | OsFail _ => true | _ => false end.
 
